@@ -727,6 +727,35 @@ def small_range_items(it, limit=4):
 
 def _comp(self, node, fr, kind):
     env0 = fr.env
+    if kind == 'list' and len(node.generators) == 1 and not node.generators[0].ifs and not node.generators[0].is_async and \
+            isinstance(node.elt, ast.Call) and isinstance(node.elt.func, ast.Name):
+        # [func(x) for x in xs] with func a locally defined function (statements, possibly effects: the `apply(func)` idiom):
+        # executed as the loop  acc = []; for x in xs: acc.append(func(x))  so that its effects are per-iteration events
+        fv = fr.env.get(node.elt.func.id)
+        fa = fv.single_atom() if fv is not None else None
+        cl = self.closures.get(fa.key) if fa is not None and fa.kind == 'closure' else None
+        if cl is not None and isinstance(cl.fi.node, ast.FunctionDef):
+            cache = self.__dict__.setdefault('_comp_loops', {})
+            if id(node) not in cache:
+                acc = f'__acc_{node.lineno}_{node.col_offset}'
+                init = ast.Assign(targets=[ast.Name(id=acc, ctx=ast.Store())], value=ast.List(elts=[], ctx=ast.Load()), type_comment=None)
+                app = ast.Expr(value=ast.Call(func=ast.Attribute(value=ast.Name(id=acc, ctx=ast.Load()), attr='append', ctx=ast.Load()),
+                                              args=[node.elt], keywords=[]))
+                loop = ast.For(target=node.generators[0].target, iter=node.generators[0].iter, body=[app], orelse=[], type_comment=None)
+                for n_ in (init, app, loop):
+                    ast.copy_location(n_, node)
+                    ast.fix_missing_locations(n_)
+                cache[id(node)] = (node, acc, [init, loop])
+            _, acc, stmts = cache[id(node)]
+            shadow = {n_.id: fr.env.get(n_.id) for n_ in ast.walk(node.generators[0].target) if isinstance(n_, ast.Name)}
+            self.exec_block(stmts, fr)
+            out = fr.env.pop(acc)
+            for k_, v_ in shadow.items():           # (the comprehension's target is local to it)
+                if v_ is None:
+                    fr.env.pop(k_, None)
+                else:
+                    fr.env[k_] = v_
+            return out
     # a comprehension over a short literal sequence is the literal list of its elements
     if kind in ('list', 'gen') and len(node.generators) == 1 and not node.generators[0].ifs:
         it0 = self.ev(node.generators[0].iter, fr)
